@@ -5,8 +5,10 @@ Model: SgVerif/Sync/Model.lean (`Bar.acquireAsync / waitFor / wasLast` = Barrier
 unsigned arithmetic) and the ghost-instrumented history run of C07/Model.lean (Barrier::wait on the one-simcall path).
 All theorems: for every n with 1 ≤ n < 2^32 and EVERY history (any length, any actors, repeated use of the barrier).
 n = 0 is outside the quantifier (expected_actors_ - 1 wraps to 2^32-1: nobody is ever released).
-Split path of the model checker (BARRIER_ASYNC_LOCK + BARRIER_WAIT): step-level facts only, and the return value is
-wrong there (finding `barrier-last-flag`, see `mc_last_flag_counterexample`).
+Split path of the model checker (BARRIER_ASYNC_LOCK + BARRIER_WAIT): since the repair of `barrier-last-flag-mc` the value
+returned there is the `was_last()` read in the BARRIER_ASYNC_LOCK simcall; `split_path_same_answer` shows that it is the
+value of the one-simcall path, so `exactly_one_last_per_group` speaks about both paths
+(`mc_last_flag_counterexample` is kept as a regression statement about the old return value).
 -/
 import SgVerif.C07.Lemmas
 namespace SgVerif.C07
@@ -81,17 +83,84 @@ example : ((run (St.init 1) [7, 7]).toOption.map (fun s => (s.returned, s.lasts)
 /-- a blocked actor cannot arrive again -/
 example : (run (St.init 3) [0, 0]).toOption.isNone = true := by decide
 
-/-! ### finding `barrier-last-flag`: on the split path used under the model checker, Barrier::wait() never returns
-true.  s4u_Barrier.cpp sets the result (`observer.set_result(was_last())`) only on the one-simcall path; the
-BARRIER_WAIT observer keeps its default `false`.  The full-strength statement "exactly one true per group on both
-paths" is therefore false on the current code; `exactly_one_last_per_group` is the part that holds (normal runs). -/
+/-! ### the split path used under the model checker (BARRIER_ASYNC_LOCK + BARRIER_WAIT)
+
+Defect `barrier-last-flag-mc` (repaired): s4u_Barrier.cpp set the result (`observer.set_result(was_last())`) only on the
+one-simcall path and returned the never-set result of the BARRIER_WAIT observer (default `false`) on the split path, so
+under simgrid-mc Barrier::wait() never returned true.  Now `was_last()` is read in the BARRIER_ASYNC_LOCK simcall and
+returned after the BARRIER_WAIT. -/
+
+/-- wait_for only marks the acquisition: it does not change what `was_last()` answers -/
+theorem waitFor_preserves_wasLast (b : Bar) (a : Aid) (g : Bool) : (b.waitFor a g).1.wasLast = b.wasLast := by
+  unfold Bar.waitFor Bar.wasLast
+  cases g
+  · simp only [Bool.false_eq_true, if_false]
+    cases hq : b.queue with
+    | nil => simp [markB]
+    | cons x xs => simp only [markB]; split <;> simp
+  · simp
+
+/-- an acquisition that is queued (not granted) is never the last of its group: the `was_last` local of a waiter that
+is released later by somebody else's BARRIER_ASYNC_LOCK is `false` (what `World.step (.barAsync ..)` answers for it) -/
+theorem acquireAsync_queued_not_last (b : Bar) (a : Aid) (h : (b.acquireAsync a).2.1 = false) :
+    (b.acquireAsync a).1.wasLast = false := by
+  by_cases hc : b.queue.length < b.threshold
+  · simp [Bar.acquireAsync, hc, Bar.wasLast]
+  · simp [Bar.acquireAsync, hc] at h
+
+/-- an acquisition that is granted at once completed its group: `was_last` is true -/
+theorem acquireAsync_granted_is_last (b : Bar) (a : Aid) (h : (b.acquireAsync a).2.1 = true) :
+    (b.acquireAsync a).1.wasLast = true := by
+  by_cases hc : b.queue.length < b.threshold
+  · simp [Bar.acquireAsync, hc] at h
+  · simp [Bar.acquireAsync, hc, Bar.wasLast]
+
+theorem step_barAsync (w : World) (a : Aid) (b : Nat) : w.step (.barAsync a b) = .ok (barAsyncStep w a b) := rfl
+theorem step_barWaitMC (w : World) (a : Aid) (b : Nat) : w.step (.barWaitMC a b) = .ok (barWaitMCStep w a b) := rfl
+
+/-- the two steps of the split path, for an arbitrary result `r` of acquire_async -/
+theorem split_path_R (w : World) (a : Aid) (b : Nat) (r : Bar × Bool × List BAcq) :
+    (barAsyncStepR w a b r).2 = (r.2.2.filter (·.waited)).map (fun q => (q.issuer, Res.flag false)) ++ [(a, .unit)] ∧
+    (barWaitMCStep (barAsyncStepR w a b r).1 a b).2 =
+      (if (r.1.waitFor a r.2.1).2 then [(a, Res.flag (r.1.waitFor a r.2.1).1.wasLast)] else []) ∧
+    (barWaitMCStep (barAsyncStepR w a b r).1 a b).1.bars b = (r.1.waitFor a r.2.1).1 := by
+  obtain ⟨b1, g, rel⟩ := r
+  refine ⟨rfl, ?_, ?_⟩
+  · simp only [barWaitMCStep, barAsyncStepR, upd, if_true, waitFor_completes_iff_granted, waitFor_preserves_wasLast]
+  · simp only [barWaitMCStep, barAsyncStepR, upd, if_true]
+
+/-- **The split path hands out the value of the one-simcall path**: in every world, for every actor and barrier, the
+BARRIER_ASYNC_LOCK releases the waiters of the completed group (`false` for each) and the BARRIER_WAIT that follows
+answers the caller iff the acquisition was granted at once, with the Boolean `was_last()` evaluated after
+`acquire_async` + `wait_for` — the very expression that `World.step (.barWait ..)` answers and that the history run
+`C07.step` records in `lasts` (so `exactly_one_last_per_group` counts the values returned on both paths); the barrier is
+left in the same state as by the one-simcall path. -/
+theorem split_path_same_answer (w : World) (a : Aid) (b : Nat) :
+    (barAsyncStep w a b).2 =
+      (((w.bars b).acquireAsync a).2.2.filter (·.waited)).map (fun q => (q.issuer, Res.flag false)) ++ [(a, .unit)] ∧
+    (barWaitMCStep (barAsyncStep w a b).1 a b).2 =
+      (if (((w.bars b).acquireAsync a).1.waitFor a ((w.bars b).acquireAsync a).2.1).2
+       then [(a, Res.flag (((w.bars b).acquireAsync a).1.waitFor a ((w.bars b).acquireAsync a).2.1).1.wasLast)] else []) ∧
+    (barWaitMCStep (barAsyncStep w a b).1 a b).1.bars b =
+      (((w.bars b).acquireAsync a).1.waitFor a ((w.bars b).acquireAsync a).2.1).1 :=
+  split_path_R w a b ((w.bars b).acquireAsync a)
+
 def w0 : World :=
   { mutexes := fun _ => { recursive := false }, sems := fun _ => { value := 0 }, conds := fun _ => {},
     bars := fun _ => { expected := 1 }, hgrant := fun _ => false }
 
+/-- **Regression (repaired defect `barrier-last-flag-mc`).**  A lone actor on a barrier of 1: the one-simcall path answers
+`true`; the split path answered `false` before the repair (literal below) and answers `true` now. -/
 theorem mc_last_flag_counterexample :
     ((w0.step (.barWait 0 0)).toOption.map (·.2) = some [(0, .flag true)]) ∧
-    ((w0.run [.barAsync 0 0, .barWaitMC 0 0]).toOption.map (·.2) = some [(0, .unit), (0, .flag false)]) := by
+    ((w0.run [.barAsync 0 0, .barWaitMC 0 0]).toOption.map (·.2) ≠ some [(0, .unit), (0, .flag false)]) ∧   -- the old answer
+    ((w0.run [.barAsync 0 0, .barWaitMC 0 0]).toOption.map (·.2) = some [(0, .unit), (0, .flag true)]) := by
   decide
+
+/-- non-vacuity of the split path over a round of 2 with a deferred release: actor 0 locks and waits (blocked), actor 1
+locks (releases 0 with `false`) and waits (gets `true`) -/
+example : ((({ w0 with bars := fun _ => { expected := 2 } } : World).run
+      [.barAsync 0 0, .barWaitMC 0 0, .barAsync 1 0, .barWaitMC 1 0]).toOption.map (·.2)) =
+    some [(0, .unit), (0, .flag false), (1, .unit), (1, .flag true)] := by decide
 
 end SgVerif.C07
